@@ -4,6 +4,8 @@ import (
 	"encoding/json"
 	"fmt"
 	"math"
+	"strings"
+	"unicode/utf16"
 
 	"hv/fw"
 	vu "hv/valuni"
@@ -19,15 +21,33 @@ type ProposedFinding struct {
 	Witness fw.Case
 }
 
+// asciiJSON escapes every non-ASCII rune as \\uXXXX so that the line survives tools that
+// re-normalise Unicode text (the witness of the NFC finding depends on a decomposed string).
+func asciiJSON(b []byte) string {
+	var sb strings.Builder
+	for _, r := range string(b) {
+		switch {
+		case r < 128:
+			sb.WriteRune(r)
+		case r > 0xFFFF:
+			r1, r2 := utf16.EncodeRune(r)
+			fmt.Fprintf(&sb, "\\u%04x\\u%04x", r1, r2)
+		default:
+			fmt.Fprintf(&sb, "\\u%04x", r)
+		}
+	}
+	return sb.String()
+}
+
 // Line renders the finding in the format of known_findings.txt.
 func (p ProposedFinding) Line() string {
 	w, _ := json.Marshal(map[string]any{"kind": p.Witness.Kind, "payload": p.Witness.Payload, "tags": p.Witness.Tags})
 	if p.Status == "fixed" {
 		tail, _ := json.Marshal(map[string]any{"witness": json.RawMessage(w)})
-		return fmt.Sprintf("fixed: property=C13 %s %s :: %s", p.Name, p.What, tail)
+		return fmt.Sprintf("fixed: property=C13 %s %s :: %s", p.Name, p.What, asciiJSON(tail))
 	}
 	tail, _ := json.Marshal(map[string]any{"witness": json.RawMessage(w), "sig": p.Sig, "tag": p.Tag})
-	return fmt.Sprintf("open: property=C13 %s %s :: %s", p.Name, p.What, tail)
+	return fmt.Sprintf("open: property=C13 %s %s :: %s", p.Name, p.What, asciiJSON(tail))
 }
 
 func witness(route, lib string, t vu.Type, tag string, vals ...vu.Val) fw.Case {
@@ -79,7 +99,7 @@ func ProposedFindings() []ProposedFinding {
 			Status: "open", Name: kfJSONFloat,
 			What: "JSON: an integral float (1.0) is read back as an int: `let x: [float] = [1.0].to_json().parse_json()` is rejected, any-object content changes kind; the interpreter additionally writes 1.0 as 1",
 			Sig: `^c13:(vm|tree):(json|prog-json):roundtrip-rejected:let:json-integral-float$|^c13:(vm|tree):(json|prog-json):roundtrip-differs:(as|let):json-integral-float$` +
-				`|^c13:tree:(json|prog-json):text-wrong:json-integral-float$`,
+				`|^c13:tree:(json|prog-json):text-wrong:json-integral-float$|^c13:vm:json:go-typed-differs:json-integral-float$`,
 			Tag:     cJSONFloat,
 			Witness: witness("json", "vm", vu.List(vu.Float()), cJSONFloat, vu.ListV(vu.FloatV(1), vu.FloatV(2.5))),
 		},
